@@ -309,7 +309,7 @@ fn values_for(kind: Kind, bits: usize, w: usize, exhaustive_upto: usize, rng: &m
 
 pub fn run(ctx: &Ctx, replay: Option<&J>) -> CheckResult {
     let rule = "carriers {U,I,SM} x {8,16,32,64} x width 1..=carrier (SM from 2) x bit offset 0..=71 (quick: all alignments 0..=7 plus sampled \
-        larger offsets) x background {00,FF,random} x values {all for width<=12 (thorough 16), else min/max/-1/0/1, one-hot, one-cold, 64 random, plus \
+        larger offsets; both tiers: 16 offsets deep in a 1023-byte body around 128/256/512/1024/4096 and at its very end) x background {00,FF,random} x values {all for width<=12 (thorough 16), else min/max/-1/0/1, one-hot, one-cold, 64 random, plus \
         non-representable values with high garbage bits} and every (offset,width) that overruns buffers of 1..=3 bytes around the field; oracle: reference \
         bit writer/reader (exact buffer image, cursor, read-back, reference decode of background bits, overflow => error and nothing changed). \
         non-trivial = every case; distinct = (carrier,width,offset,background,value)"
@@ -366,13 +366,17 @@ pub fn run(ctx: &Ctx, replay: Option<&J>) -> CheckResult {
             } else {
                 offsets.extend([8, 9, 15, 16, 17, 23, 31, 33, 40, 47, 63, 64, 65, 71]);
             }
+            // far into a message body (the payload window is 1023 bytes): around powers of two and at the very end
+            let far: [usize; 16] = [127, 128, 129, 255, 256, 257, 511, 512, 513, 1023, 1024, 1025, 4095, 4096, 4097, 8184 - *w];
+            offsets.extend(far.iter().map(|o| o + (ji % 8)).filter(|o| o + *w <= 8184));
             for &off in &offsets {
                 let need = (off + w + 7) / 8;
                 for bgk in 0..3u8 {
                     // thin the value list for large offsets in the quick tier
                     let stride = if !thorough && off >= 8 && values.len() > 300 { 7 } else { 1 };
                     let blen = need + (bgk as usize % 3);
-                    let mut bg = vec![0u8; blen.min(24).max(need)];
+                    let mut bg = vec![0u8; if off > 100 { blen.min(1023).max(need) } else { blen.min(24).max(need) }];
+                    let stride = if off > 100 { stride.max(values.len() / 40 + 1) } else { stride };
                     match bgk {
                         0 => {}
                         1 => bg.iter_mut().for_each(|b| *b = 0xFF),
